@@ -247,8 +247,9 @@ class ModelEnv:
             return
         if not self.effect("pickle.dump", f.path):
             return
+        # buffered write: the bytes reach the file only when the writer is flushed / closed / released
         f.content.payload = obj
-        f.content.complete = True                # the file object is closed right after (CPython refcount): assumption
+        f.buffered = True
 
     def pickle_load(self, f, *a, **kw):
         c = f.content
@@ -313,7 +314,29 @@ class _Reader:
 
 
 class _Writer(_Reader):
-    pass
+    """buffered writer: what was written becomes visible in the file when the object is closed (explicitly, by a
+    with-block, or by CPython releasing the last reference); a killed process never flushes."""
+    buffered = False
+    closed = False
+
+    def _flush(self):
+        if self.buffered and not self.env.frozen:
+            self.content.complete = True
+        self.closed = True
+
+    def close(self):
+        if self.closed:
+            return
+        if self.env.effect("close-flush", self.path):
+            self._flush()
+
+    def __exit__(self, *a):
+        self.close()
+        return False
+
+    def __del__(self):
+        if not self.closed:
+            self._flush()
 
 
 class _Gz:
